@@ -30,6 +30,10 @@ class Prim:
     def size(self):
         return 1.0
 
+    def min_feature(self):
+        """Smallest feature size (for the domain check of scaled scenes); None if the primitive has no size."""
+        return None
+
     def centre(self):
         return np.zeros(3)
 
@@ -107,6 +111,9 @@ class Segment(Prim):
     def size(self):
         return float(np.linalg.norm(self.b - self.a))
 
+    def min_feature(self):
+        return self.size()
+
     def centre(self):
         return 0.5 * (self.a + self.b)
 
@@ -154,6 +161,9 @@ class Triangle(Prim):
     def size(self):
         return float(max(np.linalg.norm(self.pts[i] - self.pts[j]) for i, j in ((0, 1), (1, 2), (0, 2))))
 
+    def min_feature(self):
+        return float(min(np.linalg.norm(self.pts[i] - self.pts[j]) for i, j in ((0, 1), (1, 2), (0, 2))))
+
     def centre(self):
         return self.pts.mean(axis=0)
 
@@ -181,6 +191,9 @@ class Rectangle(Prim):
     def size(self):
         return float(self.lengths.max())
 
+    def min_feature(self):
+        return float(self.lengths.min())
+
     def centre(self):
         return self.c
 
@@ -202,6 +215,9 @@ class Disk(Prim):
 
     def size(self):
         return 2 * self.ref.r
+
+    def min_feature(self):
+        return self.ref.r
 
     def centre(self):
         return self.ref.c
@@ -237,6 +253,9 @@ class Circle(Prim):
     def size(self):
         return 2 * self.r
 
+    def min_feature(self):
+        return self.r
+
     def centre(self):
         return self.c
 
@@ -260,6 +279,9 @@ class Box(Prim):
 
     def size(self):
         return float(self.sz.max())
+
+    def min_feature(self):
+        return float(self.sz.min())
 
     def centre(self):
         return self.ref.c
@@ -320,6 +342,9 @@ class Ellipsoid(Prim):
     def size(self):
         return 2 * float(self.radii.max())
 
+    def min_feature(self):
+        return float(self.radii.min())
+
     def centre(self):
         return self.ref.c
 
@@ -343,6 +368,9 @@ class Cylinder(Prim):
 
     def size(self):
         return max(2 * self.r, self.length)
+
+    def min_feature(self):
+        return min(self.r, self.length)
 
     def centre(self):
         return self.ref.c
